@@ -224,7 +224,7 @@ pub fn corpus(tier: Tier) -> Arc<Vec<TDoc>> {
 }
 
 /// JSON text of `v` in which every string (keys and values) is spelled with \\uXXXX escapes only
-fn escaped_text(v: &RVal, out: &mut String) {
+pub fn escaped_text(v: &RVal, out: &mut String) {
     fn esc(s: &str, out: &mut String) {
         out.push('"');
         for u in s.encode_utf16() {
